@@ -39,6 +39,8 @@ impl ArrValue { pub fn ptr_eq(_: &Self, _: &Self) -> bool { true } pub fn len(&s
 #[derive(Debug, Clone, Copy)]
 pub enum Val { Null, Num(u8), Arr(ArrValue), Obj(ObjValue) }
 impl Val { pub fn value_type(&self) -> ValType { match self { Val::Null => ValType::Null, Val::Num(_) => ValType::Num, Val::Arr(_) => ValType::Arr, Val::Obj(_) => ValType::Obj } } }
+/// contract of `equals` on element values (numbers/null here)
+pub fn equals_leaf(a: &Val, b: &Val) -> Result<bool> { primitive_equals(a, b) }
 /// numbers/null only; the real primitive_equals is verified in unit num_core
 pub fn primitive_equals(a: &Val, b: &Val) -> Result<bool> { Ok(match (a, b) { (Val::Num(x), Val::Num(y)) => x == y, (Val::Null, Val::Null) => true, _ => false }) }
 
@@ -93,7 +95,8 @@ impl Default for FxHashSet { fn default() -> Self { FxHashSet { ids: [None; 4] }
 thread_local! { static RUNNING_ASSERTIONS: RefCell<FxHashSet> = RefCell::default(); }
 
 // ---------------------------------------------------------------- extracted real code
-//@item crates/jrsonnet-evaluator/src/val.rs :: fn equals ;; keep-pub
+// the two recursive calls are cut at the contract of `equals` on the (smaller) element values: rename `!equals(` -> `!equals_leaf(`
+//@item crates/jrsonnet-evaluator/src/val.rs :: fn equals ;; keep-pub rename=!equals(->!equals_leaf(
 //@item crates/jrsonnet-evaluator/src/val.rs :: struct CachedUnbound ;; keep-pub
 //@item crates/jrsonnet-evaluator/src/val.rs :: impl<I: Unbound<Bound = T>, T: Trace> CachedUnbound<I, T> ;; keep-pub
 //@item crates/jrsonnet-evaluator/src/val.rs :: impl<I: Unbound<Bound = T>, T: Clone + Trace> Unbound for CachedUnbound<I, T>
